@@ -16,6 +16,10 @@ def test_units():
     for p in sorted(glob.glob(os.path.join(REPO, "test", "*.cpp")) + glob.glob(os.path.join(REPO, "test", "*", "*.cpp"))):
         if os.path.basename(p) == "main.cpp":
             continue
+        if "stress" in os.path.basename(p):
+            # stress_size.cpp / test_stress.cpp instantiate machines with thousands of states: the fact file of one such unit needs > 50 GB
+            # of extractor memory; they add no pattern x argument-kind combination that the zoo lacks (DESIGN 12.1)
+            continue
         us.append(Unit("test_" + os.path.basename(p)[:-4], p, "none", True))
     return us
 
